@@ -120,13 +120,13 @@ def main():
             {"name": "e1_layout", "path": "/verif/engine/e1_layout", "serves_properties": ["C01", "C02", "C03", "C12", "C13", "C18", "C19", "C20"], "kind_free_text": "in-process proptest on truc's builder / resolver / generator"},
             {"name": "e2_genstage + e3_gencrate", "path": "/verif/engine/e3_gencrate", "serves_properties": ["C02", "C03", "C04", "C05", "C06", "C07", "C15", "C16"], "kind_free_text": "generated definitions compiled from truc's output + proptest operation sequences vs reference model (vdrive), 3 build configurations"},
             {"name": "e4_vecconv", "path": "/verif/engine/e4_vecconv", "serves_properties": ["C08", "C09", "C10"], "kind_free_text": "proptest + exhaustive enumeration on the in-place vector conversion"},
-            {"name": "e5_probes", "path": "/verif/engine/e5_probes", "serves_properties": ["C03", "C11", "C13", "C14", "C17"], "kind_free_text": "generated programs judged by rustc (const assertions, must-reject / must-compile pairs, auto-trait probes, type-equality probes)"},
+            {"name": "e5_probes", "path": "/verif/engine/e5_probes", "serves_properties": ["C03", "C08", "C09", "C11", "C13", "C14", "C17"], "kind_free_text": "generated programs judged by rustc (const assertions, must-reject / must-compile pairs, auto-trait probes, type-equality probes)"},
             {"name": "fuzz (cargo-fuzz)", "path": "/verif/engine/fuzz", "serves_properties": ["C01", "C02", "C03", "C04", "C05", "C06", "C07", "C08", "C09", "C10", "C12", "C13", "C16", "C20"], "kind_free_text": "thorough tier: libFuzzer + AddressSanitizer targets layout / vecconv / gendrive over total byte decoders of the same case grammars, property oracle inside the target"},
             {"name": "miri tier", "path": "/verif/engine/e3_gencrate", "serves_properties": ["C07"], "kind_free_text": "pre-generated operation sequences replayed under cargo miri (symbolic alignment, strict provenance)"},
         ],
         "checks": checks,
         "not_applicable": [{"property_id": k, "reason": v} for k, v in sorted(NOT_APPLICABLE.items())],
-        "notes": "Driver: /verif/check <ID> quick|thorough|--replay <file>. Known findings: /verif/known_findings.json. Seeded changes used to test the checks: /verif/seeded/.",
+        "notes": "Driver: /verif/check <ID> quick|thorough|--replay <file>. Known findings: /verif/known_findings.json. Seeded changes used to test the checks: /verif/seeded/ (5 rounds). Behaviour-preserving changes on which every check must stay silent: /verif/benign/.",
     }
     json.dump(m, open(os.path.join(ROOT, "MANIFEST.json"), "w"), indent=1)
 
